@@ -356,7 +356,7 @@ def _payload(m, lv, bi, b, payload, nprng):
                     arr[..., f] = keep[..., f]
         return arr
     if payload == "positive":
-        arr = nprng.random(shp) + 0.25
+        arr = (nprng.random(shp) + 0.25) * 10.0 ** int(nprng.integers(-3, 4))     # several decades across boxes
         for f, n in enumerate(m.names):
             if n == "volFrac":
                 arr[..., f] = np.round(nprng.random(b.shape) * 4) / 4
